@@ -3,6 +3,7 @@
 package main
 
 import (
+	"encoding/json"
 	"context"
 	"fmt"
 	"os"
@@ -795,6 +796,9 @@ func configsFor(thorough bool) []config {
 			{Slot: 2, Unique: false, LLB: false, Keys: 8, MaxDup: 2, Prefill: 8, Depth: 3, Ops: []string{"Remove", "Add", "FindRemoveCurrent"}},
 			{Slot: 4, Unique: true, LLB: false, Keys: 22, Prefill: 22, Depth: 2, Ops: []string{"Remove", "Add"}},
 			{Slot: 4, Unique: true, LLB: true, Keys: 22, Prefill: 22, Depth: 2, Ops: []string{"Remove", "Add"}},
+			// unbalanced three-level trees under leaf load balancing (removals leave nil children, then adds distribute)
+			{Slot: 2, Unique: true, LLB: true, Keys: 10, Prefill: 10, Depth: 5, Ops: []string{"Remove", "Add"}},
+			{Slot: 2, Unique: false, LLB: true, Keys: 8, MaxDup: 2, Prefill: 8, Depth: 4, Ops: []string{"Remove", "Add"}},
 		}
 	}
 	return []config{
@@ -818,10 +822,47 @@ func configsFor(thorough bool) []config {
 		{Slot: 4, Unique: true, LLB: false, Keys: 24, Prefill: 24, Depth: 4, Ops: []string{"Remove", "Add"}},
 		{Slot: 4, Unique: true, LLB: true, Keys: 24, Prefill: 24, Depth: 4, Ops: []string{"Remove", "Add"}},
 		{Slot: 8, Unique: true, LLB: false, Keys: 50, Prefill: 50, Depth: 9, Ops: []string{"Remove"}},
+		{Slot: 2, Unique: true, LLB: true, Keys: 10, Prefill: 10, Depth: 7, Ops: []string{"Remove", "Add"}},
+		{Slot: 2, Unique: false, LLB: true, Keys: 8, MaxDup: 2, Prefill: 8, Depth: 6, Ops: []string{"Remove", "Add", "FindRemoveCurrent"}},
+		{Slot: 3, Unique: true, LLB: true, Keys: 14, Prefill: 14, Depth: 6, Ops: []string{"Remove", "Add"}},
+		{Slot: 4, Unique: true, LLB: true, Keys: 24, Prefill: 24, Depth: 6, Ops: []string{"Remove", "Add"}},
+	}
+}
+
+// replayFile prints, for the replay file of a violation, the tree shape after every step: (child item child ...),
+// "_" = nil child, item = key.meta.value (value -1 = nil).
+func replayFile(path string) {
+	b, err := os.ReadFile(path)
+	if err != nil {
+		fmt.Fprintln(os.Stderr, err)
+		os.Exit(2)
+	}
+	var f struct {
+		Replay struct {
+			Config config `json:"config"`
+			Path   []op   `json:"path"`
+		} `json:"replay"`
+	}
+	if err := json.Unmarshal(b, &f); err != nil {
+		fmt.Fprintln(os.Stderr, err)
+		os.Exit(2)
+	}
+	c := f.Replay.Config
+	in := newInst(c)
+	w := in.observe(c)
+	fmt.Printf("start  count=%d %s %s\n", in.b.Count(), w.shape.String(), w.problem)
+	for _, o := range f.Replay.Path {
+		ok, errd := in.apply(o)
+		w = in.observe(c)
+		fmt.Printf("%-22s -> %v err=%v count=%d %s %s\n", o, ok, errd, in.b.Count(), w.shape.String(), w.problem)
 	}
 }
 
 func main() {
+	if len(os.Args) > 2 && os.Args[len(os.Args)-2] == "--replay" {
+		replayFile(os.Args[len(os.Args)-1])
+		return
+	}
 	prop := os.Args[1]
 	level := "model_checking"
 	run := ev.New(prop, level)
